@@ -74,7 +74,12 @@ def _line(draw, zids):
         pre = draw(st.sampled_from(["  *", "    -"]))
     n = draw(st.sampled_from([0, 1, 1, 2, 2, 3, 3, 4, 6]))
     targets = []
-    words = [draw(st.sampled_from(["see", "foo", "read"]))]
+    # on an item line the targets follow at least one ordinary word; an indented continuation / bullet
+    # line has no primary ZID, so there a target may come first (even behind '-', a priority or a date)
+    if kind == "item" or draw(st.booleans()):
+        words = [draw(st.sampled_from(["see", "foo", "read"]))]
+    else:
+        words = draw(st.sampled_from([[], [], ["P1"], ["240101"], ["-"], ["o", "P2"]]))
     for _ in range(n):
         t = draw(_target(zids))
         if targets and draw(st.integers(0, 3)) == 0:
@@ -87,7 +92,9 @@ def _line(draw, zids):
         for _ in range(draw(st.integers(0, 2))):
             words.append(draw(st.sampled_from(FILLER)))
     text = (pre + " " + " ".join(words)) if pre.strip() else (pre + " ".join(words))
-    return {"text": text, "targets": targets, "has_primary": has_primary,
+    if kind != "item" and words and words[0] in ln_targets_first(targets):
+        pass
+    return {"text": text, "targets": targets, "has_primary": has_primary, "lead_target": kind != "item",
             "primary": pre.split(" ")[-1] if has_primary else None,
             "idx": draw(st.sampled_from([None, None, -1, 0, 1, 2, 3, n, n + 1]))}
 
@@ -98,6 +105,10 @@ def _case(draw):
     zids = [it["zid"] for pg in d.values() for it in P.iter_items(pg)]
     return {"dir": d, "today": "2024-01-05", "ext": draw(st.sampled_from(["zo", "zo", "zoq"])),
             "lines": [draw(_line(zids)) for _ in range(6)]}
+
+
+def ln_targets_first(targets):
+    return set(targets[:1])
 
 
 class _FakeSp:
